@@ -236,27 +236,27 @@ func (w *World) findHarness(hs HarnessSpec, tier string) (*Harness, error) {
 // ---------- exploration ----------
 
 type HarnessResult struct {
-	Name        string            `json:"name"`
-	Doc         string            `json:"doc"`
-	Bounds      string            `json:"bounds"`
-	Params      map[string]int    `json:"params"`
-	Paths       int               `json:"paths"`
-	Completed   int               `json:"completed_paths"`
-	Ends        map[string]int    `json:"path_ends"`
-	Instrs      int               `json:"ssa_instructions"`
-	Obligations int               `json:"obligations"`
-	Discharged  int               `json:"discharged"`
-	Reached     map[string]int    `json:"assert_reached"`
-	Violations  []Violation       `json:"violations"`
-	Inconcl     []string          `json:"inconclusive"`
-	Witnesses   []WitnessRec      `json:"witnesses,omitempty"`
-	PCSample    string            `json:"pc_sample,omitempty"`
-	Covers      []string          `json:"covers,omitempty"`
-	Funcs       []string          `json:"functions_encoded"`
-	Intrinsics  []string          `json:"intrinsics_used"`
-	WallS       float64           `json:"wall_s"`
-	PanicEnds   map[string]int    `json:"panic_ends,omitempty"`
-	FeasUnknown int               `json:"feasibility_unknown_both_sides_explored"`
+	Name        string         `json:"name"`
+	Doc         string         `json:"doc"`
+	Bounds      string         `json:"bounds"`
+	Params      map[string]int `json:"params"`
+	Paths       int            `json:"paths"`
+	Completed   int            `json:"completed_paths"`
+	Ends        map[string]int `json:"path_ends"`
+	Instrs      int            `json:"ssa_instructions"`
+	Obligations int            `json:"obligations"`
+	Discharged  int            `json:"discharged"`
+	Reached     map[string]int `json:"assert_reached"`
+	Violations  []Violation    `json:"violations"`
+	Inconcl     []string       `json:"inconclusive"`
+	Witnesses   []WitnessRec   `json:"witnesses,omitempty"`
+	PCSample    string         `json:"pc_sample,omitempty"`
+	Covers      []string       `json:"covers,omitempty"`
+	Funcs       []string       `json:"functions_encoded"`
+	Intrinsics  []string       `json:"intrinsics_used"`
+	WallS       float64        `json:"wall_s"`
+	PanicEnds   map[string]int `json:"panic_ends,omitempty"`
+	FeasUnknown int            `json:"feasibility_unknown_both_sides_explored"`
 }
 
 type RunResult struct {
